@@ -46,7 +46,7 @@ func compileProps(props []genDecl) []unitResult {
 			pl = append(pl, p.P)
 		}
 		pl = append(pl, sentinel)
-		c := compileUnit(File(theEnum, "Foo", "", pl))
+		c, _ := compileRoot("object", theEnum, "", pl)
 		u := unitResult{props: ps}
 		if c.err != nil || c.panic != nil {
 			for range ps {
@@ -121,6 +121,10 @@ func runC12(cfg *vh.Config) error {
 	caseNo := 0
 	evals := 0
 	for u := 0; u < nUnits; u++ {
+		genAST = r.Chance(25)
+		if genAST {
+			res.Count("unit-via-ast")
+		}
 		var props []genDecl
 		for i, n := 0, r.Range(2, 6); i < n; i++ {
 			scope := "c12"
